@@ -1,22 +1,25 @@
 (* C03: ownership and mode of created objects, the administrator's permission, class selection facts. *)
 From Avfs Require Import Base PathModel MemFS MemFile World.
 
-(* every object MemFS creates belongs to the calling user and group and has mode perm &^ umask *)
+(* every object MemFS creates belongs to the calling user and has mode perm &^ umask; its group is the calling
+   user's group, or the group of the directory it is created in when that directory is set-group-ID ([new_gid]);
+   a new directory also inherits the set-group-ID bit *)
 Lemma create_dir_meta s v parent name perm :
   let '(s', c) := create_dir s v parent name perm in
   c = length (f_heap s)
   /\ exists h', f_heap s' = h'
-     /\ nth_error (f_heap s ++ [NDir [] (new_meta v (dir_mode (v_os v)) (N.land perm (511 + MODE_STICKY)))]) c
-        = Some (NDir [] (new_meta v (dir_mode (v_os v)) (N.land perm (511 + MODE_STICKY)))).
+     /\ nth_error (f_heap s ++ [NDir [] (new_dir_meta v (meta_of (f_heap s) parent) perm)]) c
+        = Some (NDir [] (new_dir_meta v (meta_of (f_heap s) parent) perm)).
 Proof.
   unfold create_dir. cbn zeta. split; [reflexivity|]. eexists; split; [reflexivity|].
   rewrite nth_error_app2 by apply Nat.le_refl. rewrite Nat.sub_diag. reflexivity.
 Qed.
 
-Lemma new_meta_owner v tb perm :
-  m_uid (new_meta v tb perm) = us_uid (v_user v) /\ m_gid (new_meta v tb perm) = us_gid (v_user v)
-  /\ m_mode (new_meta v tb perm) = N.lor tb (N.ldiff (N.land perm FILE_MODE_MASK) (v_umask v)).
-Proof. unfold new_meta. cbn. auto. Qed.
+Lemma new_meta_owner v pm tb perm :
+  m_uid (new_meta v pm tb perm) = us_uid (v_user v)
+  /\ m_gid (new_meta v pm tb perm) = (if has (m_mode pm) MODE_SETGID then m_gid pm else us_gid (v_user v))
+  /\ m_mode (new_meta v pm tb perm) = N.lor tb (N.ldiff (N.land perm FILE_MODE_MASK) (v_umask v)).
+Proof. unfold new_meta, new_gid. cbn. auto. Qed.
 
 (* the administrator passes every permission check *)
 Lemma check_permission_admin m p u : us_admin u = true -> check_permission m p u = true.
